@@ -7,6 +7,7 @@ import (
 	"fmt"
 	"os"
 	"path"
+	"reflect"
 	"sort"
 	"strings"
 	"sync"
@@ -61,6 +62,7 @@ type prepared struct {
 	perFile   map[string][]m.Entry // entries of each parseable accepted file
 	plans     map[string]*m.RoutePlan
 	routes    []string
+	routeOpts map[string]*ach.ValidateOpts // union of the ValidateOpts of the inputs of a route
 	expected  []m.FileSnap // what MergeFilesWith returns over the accepted files
 	expErr    error
 	hangProne bool // as many unparseable files as workers, and something left to walk after them
@@ -290,6 +292,12 @@ func fillPrepared(p *prepared) {
 			continue
 		}
 		s := m.Snap(f)
+		if v := f.GetValidation(); v != nil {
+			if p.routeOpts == nil {
+				p.routeOpts = map[string]*ach.ValidateOpts{}
+			}
+			p.routeOpts[s.Route] = orOpts(p.routeOpts[s.Route], v)
+		}
 		p.perFile[w] = m.Entries([]m.FileSnap{s})
 		snaps = append(snaps, s)
 		files = append(files, f)
@@ -581,9 +589,26 @@ func evalCase(p *prepared, hangsSoFar *atomic.Int32) caseOut {
 				}
 			}
 		}
-		c09.CheckOutputs("C10", res.out, d.Cond, p.plans, p.routes, false, fail)
+		c09.CheckOutputsWith("C10", res.out, d.Cond, p.plans, p.routes, false, p.routeOpts, fail)
 	}
 	return co
+}
+
+// orOpts returns the field-wise OR of the boolean fields of two ValidateOpts.
+func orOpts(a, b *ach.ValidateOpts) *ach.ValidateOpts {
+	out := ach.ValidateOpts{}
+	for _, x := range []*ach.ValidateOpts{a, b} {
+		if x == nil {
+			continue
+		}
+		src, dst := reflect.ValueOf(x).Elem(), reflect.ValueOf(&out).Elem()
+		for i := 0; i < src.NumField(); i++ {
+			if src.Field(i).Kind() == reflect.Bool && src.Field(i).Bool() && dst.Field(i).CanSet() {
+				dst.Field(i).SetBool(true)
+			}
+		}
+	}
+	return &out
 }
 
 // stripPaths removes the temporary directory and file names from an error text.
@@ -605,7 +630,7 @@ func init() {
 }
 
 func run(t *T) {
-	n := t.Budget(320)
+	n := t.Budget(800)
 	preps := make([]*prepared, n)
 	rs := make([]*gen.Rand, n)
 	for i := range rs {
